@@ -15,7 +15,7 @@ PROPERTY = "C20"
 LEVEL = "model_checking"
 META = {
     "engine": "hbfs",
-    "technique": "explicit-state BFS over call histories of a real Subject with heap-canonical state de-duplication, judged by a plain-list reference model",
+    "technique": "explicit-state BFS over call histories of a real Subject with heap-canonical state de-duplication, judged by a plain-list reference model; plus stateless exhaustive exploration of thread interleavings (bounded preemptions) of subscribe() / dispose() racing the emitting thread, judged against the sequential placements on the same real class",
     "text": "every history over sub(i)/unsub(i)/next(a|b)/error/complete/dispose (+ callback-only subscribe after dispose) up to the "
     "depth bound, for every listed configuration of plain and scripted (re-entrant: unsubscribe self/other, subscribe new, from inside "
     "on_next) observers, is replayed on a fresh real Subject; after every event the per-observer logs and the exceptions raised to the "
